@@ -45,7 +45,7 @@ def gen_world(rng, npels=None, fault_rate=None):
     targets = [(c, rng.choice(comps)) for c in creators for _ in range(rng.randint(1, 2))]
     if rng.random() < 0.5:
         targets += [("M", 0x2C00)] * 2           # shipped I/O drawer plugin (real code)
-    if rng.random() < 0.15:
+    if rng.random() < 0.25:
         targets.append(("O", 0xE500))            # shipped hw-diags plugin (real code)
     if rng.random() < 0.6:
         targets += [("O", 0x2000)] * 2           # BMC built-in formats (json / text / cbor / custom)
